@@ -338,6 +338,13 @@ func (c *FnCtx) loadLoc(st *State, loc *Loc) SV {
 	t := loc.T
 	if s := c.scalarSort(t); s != "" {
 		v := c.readLeaf(st, loc, Leaf{"", s})
+		switch t.Underlying().(type) {
+		case *types.Pointer, *types.Map, *types.Chan:
+			// everything reachable is allocated (or nil)
+			if c.vc.quant == 0 {
+				c.assumeAllocated(st, v)
+			}
+		}
 		if p, ok := t.Underlying().(*types.Pointer); ok {
 			if structOf(p.Elem()) == nil {
 				return Ad{Loc: &Loc{Prefix: "cell$" + typeKey(p.Elem()), Idx: v, T: p.Elem()}}
@@ -351,7 +358,13 @@ func (c *FnCtx) loadLoc(st *State, loc *Loc) SV {
 	switch u := t.Underlying().(type) {
 	case *types.Slice:
 		ls := c.leaves(t)
-		return Sl{c.readLeaf(st, loc, ls[0]), c.readLeaf(st, loc, ls[1]), c.readLeaf(st, loc, ls[2]), c.readLeaf(st, loc, ls[3])}
+		sl := Sl{c.readLeaf(st, loc, ls[0]), c.readLeaf(st, loc, ls[1]), c.readLeaf(st, loc, ls[2]), c.readLeaf(st, loc, ls[3])}
+		if c.vc.quant == 0 {
+			c.assumeAllocated(st, sl.Arr)
+			c.vc.Assert(And(App(SBool, "<=", IntLit(0), sl.Off), App(SBool, "<=", IntLit(0), sl.Len), App(SBool, "<=", sl.Len, sl.Cap),
+				Implies(Eq(sl.Arr, IntLit(0)), And(Eq(sl.Len, IntLit(0)), Eq(sl.Cap, IntLit(0))))))
+		}
+		return sl
 	case *types.Interface:
 		ls := c.leaves(t)
 		return If{Tag: c.readLeaf(st, loc, ls[0]), ID: c.readLeaf(st, loc, ls[1])}
@@ -874,4 +887,26 @@ func (c *FnCtx) heapGetAt(st *State, name string, sort Sort) Term {
 		return t
 	}
 	return c.initHeap(st, name, sort)
+}
+
+// ix(off, j): index of element j of a slice with offset off inside its backing array. Kept
+// behind an uninterpreted function (with the defining axiom ix(o,j) = o+j) so that quantified
+// facts over slice elements have triggers free of arithmetic; offset 0 needs no wrapper.
+func (c *FnCtx) ix(off, j Term) Term {
+	if off.S == "0" {
+		return j
+	}
+	return Term{c.ixS(off.S, j.S), SInt}
+}
+
+func (c *FnCtx) ixS(off, j string) string {
+	if off == "0" {
+		return j
+	}
+	f := c.vc.Declare("ix", []Sort{SInt, SInt}, SInt)
+	if !c.ixAxiom {
+		c.ixAxiom = true
+		c.vc.assertRaw(fmt.Sprintf("(assert (forall ((o Int) (j Int)) (! (= (%s o j) (+ o j)) :pattern ((%s o j)))))", f, f))
+	}
+	return fmt.Sprintf("(%s %s %s)", f, off, j)
 }
